@@ -93,6 +93,8 @@ def check(ctx):
     ctx.rule('C05.R5', 'ENUMERATED root sorted by value before indexing; additions keep declaration order')
     ctx.rule('C05.R6', 'E1 conformance of per/uper classes')
     ctx.rule('C05.R7', 'Encoder.number_of_bits not zeroed after an append')
+    ctx.rule('C05.R9', 'compile-time copy discipline: only owned (constructed or copied) compiled objects are configured')
+    ctx.rule('C05.R8', 'INTEGER type-level encodings on boundary constraints and values equal X.691 (bounded evaluation), decoder reads them back')
 
     # ---- R1: the derived primitives are evaluated (sa/bitmachine.py) on boundary arguments; the emitted bits must equal X.691
     #          and the Decoder primitive must read back the same value from them
@@ -367,6 +369,133 @@ def check(ctx):
             ctx.violation('C05.R7', PER, z, Model.qual(f),
                           '`self.number_of_bits = 0` after the append: the count can be 0 although bits were written, and %s reads `number_of_bits > 0` as '
                           '"addition present" -- a present extension addition group is dropped from the encoding' % Model.qual(obs[0][0]), stmt='flush after append')
+
+
+    # ---- R8: INTEGER at the type level.  The attributes set_restricted_to_range derives for a constraint are computed with the
+    #          checker's evaluator, Integer.encode / decode are evaluated on them (bit machine) and compared with X.691 11.5 / 13.
+    def twos(v):
+        n = 1
+        while not (-(1 << (8 * n - 1)) <= v < (1 << (8 * n - 1))):
+            n += 1
+        return n, format(v & ((1 << (8 * n)) - 1), '0%db' % (8 * n))
+
+    def ref_integer(prefix, lb, ub, ext, v, aligned):
+        bits = prefix
+        def align():
+            return '0' * (-len(bits) % 8) if aligned else ''
+        if ext:
+            inside = (lb == 'MIN' or lb <= v) and (ub == 'MAX' or v <= ub)
+            bits += '0' if inside else '1'
+            if not inside:
+                bits += align()
+                n, body = twos(v)
+                return bits + ref_length_determinant(n)[0] + body
+        if lb == 'MIN':
+            bits += align()
+            n, body = twos(v)
+            return bits + ref_length_determinant(n)[0] + body
+        if ub == 'MAX':
+            # semi-constrained: offset from the lower bound as a non-negative binary integer in the fewest octets (X.691 11.7)
+            bits += align()
+            off = v - lb
+            n = max(1, (off.bit_length() + 7) // 8)
+            return bits + ref_length_determinant(n)[0] + format(off, '0%db' % (8 * n))
+        rng = ub - lb + 1
+        off = v - lb
+        nb = (rng - 1).bit_length()
+        if rng == 1:
+            return bits
+        if not aligned or rng <= 255:
+            return bits + format(off, '0%db' % nb)
+        if rng == 256:
+            bits += align()
+            return bits + format(off, '08b')
+        if rng <= 65536:
+            bits += align()
+            return bits + format(off, '016b')
+        # indefinite length case: number of octets L in 1..M as a constrained whole number, then the octets aligned
+        M = (nb + 7) // 8
+        L = max(1, (off.bit_length() + 7) // 8)
+        lbits = (M - 1).bit_length()
+        bits += format(L - 1, '0%db' % lbits) if lbits else ''
+        bits += align()
+        return bits + format(off, '0%db' % (8 * L))
+
+    INT_CASES = []
+    for lb, ub in ((0, 0), (0, 1), (0, 7), (3, 10), (-8, 7), (0, 254), (0, 255), (1, 256), (0, 256), (0, 65535), (0, 65536), (-70000, 70000),
+                   (0, 2 ** 24), (0, 2 ** 32 - 1), (0, 2 ** 32), (-2 ** 63, 2 ** 63 - 1), (0, 'MAX'), (1, 'MAX'), (-5, 'MAX'), ('MIN', 5), ('MIN', 'MAX')):
+        lo = lb if lb != 'MIN' else -2 ** 20
+        hi = ub if ub != 'MAX' else 2 ** 20
+        vals = sorted({lo, hi, (lo + hi) // 2, min(hi, lo + 1), min(hi, lo + 127), min(hi, lo + 128), min(hi, lo + 255), min(hi, lo + 256), min(hi, lo + 65535), min(hi, lo + 65536)})
+        for v in vals:
+            INT_CASES.append((lb, ub, False, v))
+    for lb, ub, v in ((0, 7, 5), (0, 7, 8), (0, 7, -1), (0, 7, 1000), (0, 255, 256), (1, 256, 0), (0, 65536, 70000), (0, 65536, 3)):
+        INT_CASES.append((lb, ub, True, v))
+    for rel, aligned in ((PER, True), (UPER, False)):
+        cm = model.mod(rel)
+        icls = cm.classes.get('Integer')
+        if icls is None:
+            raise AnalysisError('%s: Integer class vanished' % rel)
+        init = icls.find_method('__init__')[1]
+        srr = icls.find_method('set_restricted_to_range')[1]
+        fe, fd = icls.find_method('encode')[1], icls.find_method('decode')[1]
+        Em = bitmachine.Machine(model, cm.classes.get('Encoder') or enc, 'enc', align_noop=not aligned)
+        Dm = bitmachine.Machine(model, cm.classes.get('Decoder') or dec, 'dec', align_noop=not aligned)
+        pe, pd = flow.param_names(fe), flow.param_names(fd)
+
+        def config(lb, ub, ext):
+            _r, env = evalexpr.run_function(init, {flow.param_names(init)[1]: 'x', '__funcs__': bitmachine.module_funcs(init)}, skip_calls=True)
+            sp = flow.param_names(srr)[1:]
+            env.update(dict(zip(sp, (lb, ub, ext))))
+            env['__funcs__'] = bitmachine.module_funcs(srr)
+            _r, env = evalexpr.run_function(srr, env, skip_calls=True)
+            return {k: v_ for k, v_ in env.items() if k.startswith('self.')}
+        n_ok = n_und = 0
+        first_bad = und = None
+        groups = {}
+        for lb, ub, ext, v in INT_CASES:
+            label = 'INTEGER (%s..%s%s) value %d' % (lb, ub, ', ...' if ext else '', v)
+            try:
+                cfg = config(lb, ub, ext)
+                bits, _ = Em.run_fn(fe, pe[2], [v, None], cfg, '101')
+                want = ref_integer('101', lb, ub, ext, v, aligned)
+                msg = None
+                if bits != want:
+                    msg = 'X.691 prescribes %s after the 3-bit prefix, the encoder emits %s' % (want[3:] or '(nothing)', bits[3:] or '(nothing)')
+                else:
+                    got, pos = Dm.run_fn(fd, pd[1], [None], cfg, want + PAD, 3)
+                    if got != v or pos != len(want):
+                        msg = 'the decoder reads %r (ending at bit %d) from the %d-bit encoding' % (got, pos, len(want))
+            except (evalexpr.Unsupported, bitmachine.Undecided, KeyError, TypeError) as e:
+                n_und += 1
+                und = und or '%s: %s' % (label, e)
+                continue
+            except (bitmachine.Raised, evalexpr.Raised) as e:
+                msg = 'raises %s' % getattr(e, 'name', 'an error')
+            if msg is None:
+                n_ok += 1
+            else:
+                kind = 'semi-constrained (lb..MAX)' if ub == 'MAX' and lb != 'MIN' else ('extensible' if ext else 'constrained' if ub != 'MAX' and lb != 'MIN' else 'unconstrained')
+                groups.setdefault(kind, (label, msg))
+        ctx.instance('C05.R8', '%s.Integer: %d (constraint, value) cases evaluated, %d undecided' % (cm.short, n_ok, n_und), 'VIOLATION' if groups else ('ok' if n_ok else 'undecided'), und or '',
+                     nontrivial=n_ok > 0, node=fe, file=rel)
+        for kind, (label, msg) in sorted(groups.items()):
+            ctx.violation('C05.R8', rel, fe, '%s::Integer.encode [%s]' % (rel, kind), '%s: %s' % (label, msg), stmt='INTEGER %s' % kind)
+
+
+    # ---- R9 copy discipline: compiled user types are cached and shared by every reference; a member-level constraint configured on
+    #      the shared object changes the encoding of unrelated components
+    from .. import copyrule
+    n9 = 0
+    for f_, node_, var_, what_, owned_, why_ in copyrule.sites(model, ['asn1tools/codecs/compiler.py', PER, UPER]):
+        n9 += 1
+        ctx.instance('C05.R9', '%s %s' % (Model.qual(f_), what_), 'owned' if owned_ else 'VIOLATION', why_, node=node_, file=f_._mod.rel)
+        if not owned_:
+            ctx.violation('C05.R9', f_._mod.rel, node_, Model.qual(f_),
+                          '%s configures an object that may be the cached instance shared by every reference to a named type (%s): the PER/UPER encoding of an unrelated component '
+                          'with the same type changes' % (what_, why_), stmt=norm_stmt(Model.enclosing_stmt(node_)))
+    if n9 < 4:
+        raise AnalysisError('C05.R9 found only %d configuration sites' % n9)
 
 
 MUTANTS = [
